@@ -26,6 +26,8 @@ type Client struct {
 	Monitored map[string][]string // table -> monitored columns
 	Ctx       *abs.Ctx
 	Handlers  []*Handler
+
+	barrierFailed bool
 }
 
 // NewClient connects a real client to the endpoint (unix socket path).
